@@ -164,7 +164,41 @@ def receiver_order(F, R):
         R.ob('FLOW', 'FLOW::%s::same-channel' % fnkey(f), sym_nstr(sym(f, x.args[1])) == 'channel_id', 'receive_from_to_be_removed_connections(%s)' % sym_nstr(sym(f, x.args[1])), x.where, f)
 
 
+def eviction_predicates(F, R):
+    """Receiver: which expired connection may be dropped.  The predicates handed to find_connection_with_condition are pure boolean
+    functions of (has_data, has_borrows); they are evaluated exhaustively (4 assignments): `without_data_and_borrows` is true only for
+    (false, false) - an expired connection with undelivered samples is never evicted by the safe fallback (delivered-or-documented-loss);
+    `without_borrows` is true exactly when has_borrows is false."""
+    want = {
+        'find_connection_without_data_and_borrows': {(False, False): True, (False, True): False, (True, False): False, (True, True): False},
+        'find_connection_without_borrows': {(False, False): True, (False, True): False, (True, False): True, (True, True): False},
+    }
+    n = 0
+    for nm, tbl in want.items():
+        fs = F.find_fns(r'^iceoryx2::port::details::receiver::Receiver::<.*>::%s$' % nm)
+        if len(fs) != 1:
+            R.missing('Receiver::%s' % nm)
+            continue
+        f = fs[0]
+        cl = F.closures_of(f, recursive=False)
+        key = 'CONST::%s::predicate-truth-table' % fnkey(f)
+        if len(cl) != 1:
+            R.ob('CONST', key, False, 'anchor-missing: expected one predicate closure, found %d' % len(cl), '%s:%s' % (f.file, f.line), f)
+            continue
+        t = lib.bool_truth_table(cl[0])
+        n += 1
+        R.ob('CONST', key, t == tbl, 'predicate(has_data, has_borrows) evaluates to %s ; required %s' % (
+            None if t is None else {('%d%d' % k): int(v) for k, v in sorted(t.items())}, {('%d%d' % k): int(v) for k, v in sorted(tbl.items())}), '%s:%s' % (cl[0].file, cl[0].line), f)
+    R.floor('eviction predicates evaluated', n, 2)
+
+
 def check(F, R, tier):
+    # the delivery path runs over the two index queues named in this property's anchors: their publish/consume ordering floors and slot
+    # access order (C03's rules) are necessary for "byte identical, at most once" and are evaluated here as well
+    from . import C03
+    C03.spsc_plain(F, R, C03.IQ, r'IndexQueue::at')
+    C03.overflowing(F, R)
+    eviction_predicates(F, R)
     lib.flavour_siblings(R, F, r'^iceoryx2::port::subscriber::Subscriber::<.*>::receive$', 'SIBLINGS', 'a sample is handed out under the same conditions for every payload flavour', floor=1)
     refresh_before_use(F, R)
     history(F, R)
